@@ -4,6 +4,7 @@
     [ValidCSR n epx off] = the table is the concatenation of n rows (row i = the records with bin1 = i)
     and off is the prefix-sum index of the row lengths. *)
 From Cooler Require Import Model.Query Proofs.PixelsProofs Proofs.QueryProofs Proofs.SpansProofs Proofs.QueryMain.
+From Cooler Require Import Gen.Translated Proofs.GenBridge.
 From Coq Require Import Sorted Permutation.
 
 (** pixel output (as_pixels / direct engine): exactly the stored records inside the window, in storage order,
@@ -130,6 +131,24 @@ Print Assumptions C03_process_scalar_spec.
 Theorem C03_valid_check_sound : forall n epx off, valid_csr_b n epx off = true -> ValidCSR n epx off.
 Proof. exact valid_csr_b_sound. Qed.
 Print Assumptions C03_valid_check_sound.
+
+(** tie by translation: the decision logic regenerated from /repo's source on this run (coq/Gen/Translated.v,
+    written by tools/py2v.py) is the model the theorems above are about *)
+Theorem C03_source_plan_is_model : forall bb,
+  option_map (fun p => combine (fst p) (snd p)) (Gen.fill_lower_plan bb) = fill_lower_plan bb.
+Proof. exact gen_fill_lower_plan. Qed.
+Print Assumptions C03_source_plan_is_model.
+Theorem C03_source_comes_before_contains_are_model : forall a0 a1 b0 b1 s,
+  Gen.comes_before a0 a1 b0 b1 s = comes_before a0 a1 b0 b1 s /\ Gen.contains a0 a1 b0 b1 s = contains a0 a1 b0 b1 s.
+Proof. intros. split; [apply gen_comes_before|apply gen_contains]. Qed.
+Print Assumptions C03_source_comes_before_contains_are_model.
+Theorem C03_source_process_slice_is_model : forall start stop s nmax,
+  Gen.process_slice start stop nmax = process_slice start stop nmax /\ Gen.process_scalar s nmax = process_scalar s nmax.
+Proof. intros. split; [apply gen_process_slice|apply gen_process_scalar]. Qed.
+Print Assumptions C03_source_process_slice_is_model.
+Theorem C03_source_pins : Gen.transpose_swaps_bin_ids = true /\ Gen.direct_tasks_one_per_span_no_reflect = true /\ Gen.reader_source_pins = true.
+Proof. exact gen_pins. Qed.
+Print Assumptions C03_source_pins.
 
 (** non-vacuity: a concrete 4-bin table with an empty row meets the hypotheses, and the engines give the expected answers *)
 Definition ex_px : list pixel := [((0,0),5); ((0,2),7); ((2,2),1); ((2,3),4); ((3,3),9)].
